@@ -102,17 +102,17 @@ def main():
         print("invalid format specification '%s' does not contain .." % args[0], file=sys.stderr)
         sys.exit(2)
     # ready to do some real work
+    if len(args) < 2:
+        print("strufile not specified", file=sys.stderr)
+        sys.exit(2)
+    strufile = args[1]
     try:
-        strufile = args[1]
         stru = Structure()
         if args[1] == "-":
             stru.readStr(sys.stdin.read(), infmt)
         else:
             stru.read(strufile, infmt)
         sys.stdout.write(stru.writeStr(outfmt))
-    except IndexError:
-        print("strufile not specified", file=sys.stderr)
-        sys.exit(2)
     except IOError as e:
         print("%s: %s" % (strufile, e.strerror), file=sys.stderr)
         sys.exit(1)
